@@ -251,14 +251,14 @@ def gen_one(r: random.Random, fmt: str, tier: str, ct: str):
     b = ct.encode()
     quick = tier != "thorough"
     if fmt == "django":
-        it = r.choice([1, 2, 3, 10, 100, 1000]) if quick or r.random() < 0.8 else r.choice([20000, 36000, 260000])
+        it = r.choice([1, 2, 3, 10, 100, 1000]) if quick or r.random() < 0.9 else r.choice([20000, 36000, 120000])
         salt = "".join(r.choice(LETTERS) for _ in range(r.choice([1, 8, 12, 22])))
         h = hashlib.pbkdf2_hmac("sha256", b, salt.encode(), it, 32)
         return f"pbkdf2_sha256${it}${salt}${base64.b64encode(h).decode()}", {"cost": it, "salt": salt.encode().hex(), "hash": h.hex(), "kdf": "PBKDF2"}
     if fmt in ("pbkdf2", "pbkdf2-sha1", "pbkdf2-sha256", "pbkdf2-sha512"):
         alg, dk, kdf = {"pbkdf2": ("sha1", 20, "PBKDF2_SHA1"), "pbkdf2-sha1": ("sha1", 20, "PBKDF2_SHA1"),
                         "pbkdf2-sha256": ("sha256", 32, "PBKDF2"), "pbkdf2-sha512": ("sha512", 64, "PBKDF2_SHA512")}[fmt]
-        it = r.choice([1, 2, 7, 100, 1000, 4096]) if quick or r.random() < 0.8 else r.choice([10000, 60000])
+        it = r.choice([1, 2, 7, 100, 1000, 4096]) if quick or r.random() < 0.9 else r.choice([10000, 30000])
         salt = r.randbytes(r.choice([1, 2, 3, 8, 15, 16, 16, 16, 17, 32]))
         h = hashlib.pbkdf2_hmac(alg, b, salt, it, dk)
         enc = ab64 if r.random() < 0.8 else b64_nopad
@@ -294,7 +294,7 @@ def gen_one(r: random.Random, fmt: str, tier: str, ct: str):
         elif k < 0.45:
             rounds, spec = 5000, "rounds=5000$"
         else:
-            rounds = r.choice([1000, 1001, 1234, 2000, 4999, 5001]) if quick or r.random() < 0.8 else r.choice([20000, 100000])
+            rounds = r.choice([1000, 1001, 1234, 2000, 4999, 5001]) if quick or r.random() < 0.9 else r.choice([20000, 100000])
             spec = f"rounds={rounds}$"
         out = crypt.crypt(ct, f"${ident}${spec}{salt}$")
         assert out and out.startswith(f"${ident}${spec}{salt}$"), out
@@ -344,9 +344,37 @@ def fixed_vectors():
     ]
 
 
+def edge_vectors(r: random.Random):
+    """Strings NO producer writes (outside the property's quantifier): recorded as observations by
+    the harness, never as failures. `accept` is what this side does with them."""
+    out = []
+    # PBKDF2 with cost 0: hashlib refuses to compute (ValueError) -> an independent verifier never accepts
+    salt = r.randbytes(16)
+    h1 = hashlib.pbkdf2_hmac("sha256", b"password", salt, 1, 32)
+    out.append(("pbkdf2-cost-0", "{PBKDF2-SHA256}0$" + ab64(salt) + "$" + ab64(h1), "password", False))
+    out.append(("django-cost-0", "pbkdf2_sha256$0$abcdefgh$" + base64.b64encode(hashlib.pbkdf2_hmac("sha256", b"password", b"abcdefgh", 1, 32)).decode(), "password", False))
+    # $6$ / $5$ with a salt longer than 16: crypt(3) truncates the salt and writes the truncated one back,
+    # so the stored string (long salt) never compares equal
+    for ident in ("5", "6"):
+        salt20 = h64_salt(r, 20, 20)
+        o = crypt.crypt("password", f"${ident}${salt20}$")
+        stored = f"${ident}${salt20}$" + o.rsplit("$", 1)[1]
+        v = crypt.crypt("password", stored)
+        out.append((f"crypt-sha-{ident}-salt-over-16", "{crypt}" + stored, "password", v == stored))
+    # $1$ with a salt longer than 8
+    salt12 = h64_salt(r, 12, 12)
+    o = crypt.crypt("password", f"$1${salt12}$")
+    stored = f"$1${salt12}$" + o.rsplit("$", 1)[1]
+    out.append(("crypt-md5-salt-over-8", "{crypt}" + stored, "password", crypt.crypt("password", stored) == stored))
+    # a character outside the crypt alphabet in the hash field
+    out.append(("crypt-sha256-bad-hash-char", "{crypt}$5$saltsalt$!", "password", False))
+    out.append(("crypt-sha512-bad-hash-char", "{crypt}$6$saltsalt$!", "password", False))
+    return out
+
+
 def build(seed: int, tier: str, budget: int):
     r = random.Random((seed << 8) ^ 0xC30)
-    per = (12 if tier != "thorough" else 90) * budget
+    per = (12 if tier != "thorough" else 60) * budget
     vectors = []
     vid = 0
     for imp, ct, fmt in fixed_vectors():
@@ -356,6 +384,10 @@ def build(seed: int, tier: str, budget: int):
             cands.append({"why": why, "ct": t.encode().hex(), "accept": v})
         assert cands[0]["accept"] is True, (imp, ct)
         vectors.append({"id": vid, "fmt": fmt, "origin": "published", "import": imp, "meta": {}, "cands": cands})
+        vid += 1
+    for name, imp, ct, acc in edge_vectors(r):
+        vectors.append({"id": vid, "fmt": name, "origin": "edge", "import": imp, "meta": {},
+                        "cands": [{"why": "right", "ct": ct.encode().hex(), "accept": acc}]})
         vid += 1
     for fmt in FORMATS:
         n = max(2, int(per * WEIGHT.get(fmt, 1.0)))
